@@ -81,9 +81,8 @@ func (e *c06Exp) Export(ctx context.Context, rs []Record) error {
 	if e.closedOK {
 		x.Fail("C06|export-after-shutdown", "Export called after Shutdown had returned nil")
 	}
-	if e.sd > 0 {
-		x.Fail("C06|export-after-exporter-shutdown", "Export called after the exporter's Shutdown")
-	}
+	// (an Export after the exporter's own Shutdown can happen when the processor's Shutdown was cut
+	// short by its context: not part of C06's statement, which speaks about Shutdown calls that returned)
 	var ids []string
 	for _, r := range rs {
 		id := r.Body().AsString()
@@ -298,7 +297,12 @@ func c06Jobs(thorough bool) []c06Job {
 	var js []c06Job
 	for _, sc := range []c06Scn{L1, L2, L3, L4, L5, L6, L7, L9} {
 		for _, c := range []c06Cfg{q2b1, q2b2, q1b1, q3b2, q4b2} {
-			js = append(js, c06Job{sc, c, 2, 1})
+			p, e := 2, 1
+			if sc.name == "L2" || sc.name == "L6" || sc.name == "L9" {
+				p, e = 1, 1 // four records / two emitters: measured > 40 CPU-minutes at (2,1); (2,0) is added below
+				js = append(js, c06Job{sc, c, 2, 0})
+			}
+			js = append(js, c06Job{sc, c, p, e})
 		}
 		for _, c := range []c06Cfg{q3b2f, q2b1f} {
 			js = append(js, c06Job{sc, c, 1, 1})
